@@ -16,7 +16,7 @@ CHECKS = {
    text="All 127 DNFs over 3 seeds (all 125 probability assignments), 575 (thorough 32 767) DNFs over 4 seeds, nested And/Or, every single-Not variant, exclusive groups, missing seeds, special cases, (thorough: up to 12 seeds) x 240 valid + 7 invalid configurations; a counting HybridClock expires the deadline at every reading n of the fault-free run in two modes (single jump, runaway); compile_lineage_to_sdd_with_clock per reading and node budget; evaluate_topk; Reasoner::infer_new_facts_with_hybrid end to end on 21 programs: Exact equals the truth-table probability, every interval contains it, Alert => p* >= threshold, NoAlert => p* < threshold, never a decision contradicted by p*.",
    note="Exclusive groups of mass 1 only (semantics of smaller mass is undefined in the code); missing seeds: certified claims must hold for every completion."),
  "C10": dict(level="model_checking", design="§3 C10", technique="exhaustive enumeration of streams on real single-window RSP engines against a window-content/closure/R2S reference + stateless schedule exploration (baton scheduler, preemption-bounded DFS) of the multi-threaded engine",
-   text="Every in-order stream of <=4 (thorough <=5) items (3-triple alphabet x gaps {0,1,2}) on a real RSPEngine for {RSTREAM, ISTREAM, DSTREAM} x 4 (width,slide) pairs x 6 query/rule configurations: the emitted row sequence must be the concatenation, firing by firing, of the query answers over exactly the probe window's content plus its rule closure, passed through the stream operator. The same streams (<=3 items, thorough <=4) run in OperationMode::MultiThread under the baton scheduler of hook H1: every schedule with <=2 (thorough 3) preemptions must emit the same sequence and must not deadlock.",
+   text="Every in-order stream of <=4 (thorough <=5) items (3-triple alphabet x gaps {0,1,2}) on a real RSPEngine for {RSTREAM, ISTREAM, DSTREAM} x 4 (width,slide) pairs x 6 query/rule configurations: the emitted row sequence must be the concatenation, firing by firing, of the query answers over exactly the probe window's content plus its rule closure, passed through the stream operator. The same streams (<=3 items, thorough <=4) run in OperationMode::MultiThread under the baton scheduler of hook H1: every schedule with <=2 preemptions must emit the same sequence and must not deadlock.",
    note="Scheduling points at channel send/receive and around the window processor only; rows inside one firing are compared as a multiset (hash order); stop()'s flush excluded."),
  "C13": dict(level="exploration", design="§3 C13", technique="bounded-exhaustive enumeration of documents around every loader chunk boundary x formats x prior database contents x pool sizes on the real loaders, reference reader as oracle, cross-format equality",
    text="Documents of sizes {0,1,2, 998..1003, 1998..2002, 3001} (thorough more, incl. the 8192 RDF/XML batch boundary) generated from one abstract triple list in N-Triples, N-Quads (+graph column), Turtle, N3 and RDF/XML, with a distinguished line (@prefix used only later, term first seen in the previous chunk, duplicate, lang/datatype/escaped literal, quoted triple, comment, blank line, blank node, '#' in an IRI) at every offset -2..+2 of every chunk boundary, loaded into databases with 5 kinds of prior content under rayon pools of 1/2/4/16 threads; the lexical quad set must equal prior + document, the dictionary must stay a bijection with prior ids unchanged, and all formats must load identically.",
